@@ -97,9 +97,11 @@ meta["what_it_needs"] = ""
 if confirmed:
     os.makedirs(d, exist_ok=True)
     if a.phase != "check":
-        shutil.copy(patch, os.path.join(d, "patch.diff"))
-        shutil.copy(demo_src, os.path.join(d, "demo.rs"))
+        for src, dst in ((patch, os.path.join(d, "patch.diff")), (demo_src, os.path.join(d, "demo.rs"))):
+            if os.path.abspath(src) != os.path.abspath(dst):
+                shutil.copy(src, dst)
     if notes and a.phase != "check":
-        open(os.path.join(d, "notes.md"), "w").write(notes)
+        if os.path.abspath(os.path.join(a.mdir, "notes.md")) != os.path.abspath(os.path.join(d, "notes.md")):
+            open(os.path.join(d, "notes.md"), "w").write(notes)
     json.dump(meta, open(os.path.join(d, "meta.json"), "w"), indent=1)
 print(json.dumps({k: meta[k] for k in ("id", "confirmed", "demo_passes_without_change", "suite_with_change", "demo_fails_with_change", "detected_by")}))
